@@ -77,5 +77,4 @@ theorem pairwise_mergeUnique : ∀ (xs ys : List Int), xs.Pairwise (· < ·) →
       · have := (List.pairwise_cons.mp hx).1 a ha; omega
     · exact (List.pairwise_cons.mp hy).1 a ha
 
-#print axioms pairwise_mergeUnique
 end P
